@@ -14,6 +14,12 @@ focus: MapFocus / ForFocus / PredFocus / QuantFocus put a consumer (exists empty
 inner filter or map, which sets its own focus and may be abandoned early, next to a reader of the OUTER
 focus (. position() last()); the definitional value ignores the consumer, the implementation has to
 restore the focus after an abandoned generator and must evaluate every binding on its own context.
+ForDep / ForDep3 / QuantDep are for / some / every with 2 and 3 clauses whose inner ranges DEPEND on
+the outer variable (1 to $x - 1, $x to 2, S[. lt $x]; empty for the first / a middle / the last outer
+value), in the multi-clause and in the nested spelling (law: several clauses = nested = tuple stream).
+Universe "ux" holds values that are eq ACROSS xs:integer / xs:decimal / xs:float / xs:double including the
+non-dyadic 0.1 / 0.1e0, 0.3 / 0.3e0 (F&O eq promotes the xs:decimal operand) for index-of,
+distinct-values, min/max, value predicates and quantifier tests.
 
 Binding A: the dumped TLC graph is the test plan.  Every edge S --Act(args)--> S' is rendered as XPath
 text and evaluated with select(None, expr, item=1, parser=XPath2Parser|XPath30Parser|XPath31Parser).
